@@ -668,8 +668,67 @@ def run_server_derive(ctx, rng):
                             ctx.violation('server|derive-two-objects|%s|first:%s' % (method.name, 'SecretData' if first[0] is None else 'key'),
                                           'DeriveKey over two base objects (keying object %s, then a Secret Data object as derivation '
                                           'data) differs from the reference' % (first[0].name if first[0] else 'SecretData'), None)
+            def derived_value(r):
+                g = srv.send([op_get(r.uid())], a, (1, 2))
+                for _, it in T.walk(g.payload() or (0, 1, [])):
+                    if it[0] in (0x420043,):
+                        return it[2]
+                return None
+
+            def new_attrs(otype, length):
+                if otype == E.ObjectType.SYMMETRIC_KEY:
+                    return sym_attrs(CA.AES, length, ALL_MASKS)
+                return [rig.attr(E.AttributeType.CRYPTOGRAPHIC_LENGTH, length),
+                        rig.attr(E.AttributeType.CRYPTOGRAPHIC_USAGE_MASK, [E.CryptographicUsageMask.DERIVE_KEY])]
+            # encryption-based derivation through the server: block-cipher base keys, every chaining mode, the IV stated
+            # or left out, both kinds of derived object, lengths shorter than the cipher text
+            for (balg, key, uid) in [b for b in bases if b[0] in (CA.AES, CA.BLOWFISH)]:
+                bs = SYM[balg][0]
+                for mode, with_iv, otype in itertools.product((BM.CBC, BM.ECB, BM.CFB, BM.OFB, BM.CTR), (True, False),
+                                                              (E.ObjectType.SYMMETRIC_KEY, E.ObjectType.SECRET_DATA)):
+                    iv = rb(rng, bs)
+                    data = rb(rng, rng.choice((bs, 2 * bs, 3 * bs)))
+                    padm = rng.choice((PM.PKCS5, PM.ANSI_X923)) if mode in (BM.CBC, BM.ECB) else None
+                    length = rng.choice((64, 128, 8 * len(data)))
+                    dp = attrs.DerivationParameters(
+                        cryptographic_parameters=cparams(cryptographic_algorithm=balg, block_cipher_mode=mode, padding_method=padm),
+                        initialization_vector=iv if with_iv else None, derivation_data=data)
+                    req = [op_derive_key([uid], object_type=otype, method=DM.ENCRYPT, params=dp, attributes_list=new_attrs(otype, length))]
+                    r = srv.send(req, a, (1, 2))
+                    ctx.ev()
+                    label = 'server-derive|ENCRYPT|%s|%s|%s|%s' % (balg.name, mode.name, 'iv' if with_iv else 'no-iv', otype.name)
+                    if r.error is not None or not r.ok():
+                        ctx.cell(label, 'refused')
+                        ctx.count('refused')
+                        continue
+                    val = derived_value(r)
+                    ctx.cell(label, 'ok')
+                    n = length // 8
+                    if val is None or len(val) != n:
+                        ctx.violation('server|derive|ENCRYPT|length|%s' % otype.name,
+                                      'DeriveKey (ENCRYPT, %s) asked for %d bytes of %s, Get returns %s bytes'
+                                      % (mode.name, n, otype.name, None if val is None else len(val)), None)
+                        continue
+                    if with_iv or mode == BM.ECB:
+                        plain = pad(data, bs, padm) if padm else data
+                        want = ref_encrypt(balg, key, mode, iv, plain)[0][:n]
+                        ctx.count('references_compared')
+                        if val != want:
+                            ctx.violation('server|derive|ENCRYPT|%s|value' % mode.name,
+                                          'DeriveKey (ENCRYPT, %s, %s base key) stores a value that differs from the reference for the '
+                                          'stated parameters' % (mode.name, balg.name), None)
+                    else:
+                        # no IV stated for a mode that needs one: if the server accepts the request at all, the derived
+                        # value must be a function of the request (derive twice, compare)
+                        r_again = srv.send(req, a, (1, 2))
+                        ctx.count('derivations_repeated')
+                        if r_again.error is None and r_again.ok() and derived_value(r_again) != val:
+                            ctx.violation('server|derive|ENCRYPT|%s|not-a-function-of-the-request' % mode.name,
+                                          'two identical DeriveKey requests (ENCRYPT, %s, no IV) derive different values: the result '
+                                          'cannot be reproduced from the stated parameters' % mode.name, None)
             for (balg, key, uid), (ha, h), method in itertools.product(bases, list(HASHES.items())[1:], (DM.HMAC, DM.PBKDF2, DM.NIST800_108_C, DM.HASH)):
                 length = rng.choice((128, 256, 64))
+                otype = rng.choice((E.ObjectType.SYMMETRIC_KEY, E.ObjectType.SYMMETRIC_KEY, E.ObjectType.SECRET_DATA))
                 data = rb(rng, 10)
                 salt = rb(rng, 8)
                 its = rng.choice((1, 3))
@@ -679,9 +738,9 @@ def run_server_derive(ctx, rng):
                                                 iteration_count=its if method == DM.PBKDF2 else None)
                 if method == DM.HASH:
                     dp = attrs.DerivationParameters(cryptographic_parameters=cparams(hashing_algorithm=ha))
-                r = srv.send([op_derive_key([uid], method=method, params=dp, attributes_list=sym_attrs(CA.AES, length, ALL_MASKS))], a, (1, 2))
+                r = srv.send([op_derive_key([uid], object_type=otype, method=method, params=dp, attributes_list=new_attrs(otype, length))], a, (1, 2))
                 ctx.ev()
-                label = 'server-derive|%s|%s|base:%s' % (method.name, ha.name, balg.name if balg else 'SecretData')
+                label = 'server-derive|%s|%s|base:%s|%s' % (method.name, ha.name, balg.name if balg else 'SecretData', otype.name)
                 if r.error is not None or not r.ok():
                     ctx.cell(label, 'refused')
                     ctx.count('refused')
@@ -704,7 +763,11 @@ def run_server_derive(ctx, rng):
                         continue
                 ctx.count('references_compared')
                 ctx.cell(label, 'ok')
-                if val != want:
+                if val is not None and len(val) != n:
+                    ctx.violation('server|derive|%s|length|%s' % (method.name, otype.name),
+                                  'DeriveKey (%s, %s) asked for %d bytes of %s, Get returns %d bytes'
+                                  % (method.name, ha.name, n, otype.name, len(val)), None)
+                elif val != want:
                     ctx.violation('server|derive|%s|%s|base:%s' % (method.name, ha.name, 'HMAC-key' if (balg and balg.name.startswith('HMAC')) else 'other'),
                                   'DeriveKey (%s, %s) over a %s base object stores a key that differs from the reference for the stated '
                                   'parameters' % (method.name, ha.name, balg.name if balg else 'SecretData'), None)
